@@ -870,4 +870,141 @@ def Heap.okb (n : Nat) (h : Heap) : Bool :=
   h.w.types.all (fun p => invb h.w.slots p.2 && p.2.cache.length == n &&
     (memosOf p.2).all (fun c => c.id == 0 || h.nameAt (c.id - 1) == some c.name || h.nameAt (c.id - 1) == none))
 
+/-! ### the strings a run-time type object does NOT own (known finding KF-C08-borrowed-name)
+
+  `Type_New` stores POINTERS, not texts: `t[cache_entries+0] = { NULL, "__Name", (var)c_str(name) }` keeps the `char*` that
+  lives INSIDE the caller's String object, and `{ NULL, (var)c_str(type_of(ins)), ins }` copies the `__Name` word of the
+  class object into the triple.  Everything above this section treats a name as a TEXT (a value fixed by the
+  construction).  That is what the code does as long as nobody writes the characters the pointers point at: a string
+  literal, or a buffer the caller never touches again.  When the caller overwrites the buffer (`char buf[] = "Alpha";
+  T = new(Type, $S(buf), …); strcpy(buf, "Beta")`), every `__Name` cell and every triple name word that points into it
+  reads the new text at the next `strcmp` — no function of the library was called on any of these type objects.  (A buffer
+  that is released — the String object collected or re-assigned — makes the same words dangle: a read of freed memory.)
+
+  `XHeap` = a `Heap` plus the provenance of the `char*` words: which caller's buffer a `__Name` cell and a triple's name
+  word point into.  `XOp.construct` is `Type_New` with the name given as a pointer (`NameArg`) and the instances given by
+  their class OBJECTS (the triple copies the class's `__Name` word, pointer and all); `XOp.scribble` is the caller's write. -/
+
+/-- the `name` argument of `Type_New`: `$S("literal")` (static storage nobody writes) or `$S(buf)` / a String object whose
+    characters live in the caller's buffer `b` -/
+inductive NameArg where
+  | lit (s : String)
+  | buf (b : Nat)
+deriving DecidableEq, Repr, Inhabited
+
+structure XHeap where
+  h : Heap
+  bufs : List (Nat × String)              -- caller-owned character buffers: their text now
+  nameBuf : List (Nat × Nat)              -- address of a type object ↦ the buffer its `__Name` cell points into (absent: static storage)
+  tripleBuf : List ((Nat × Nat) × Nat)    -- (address, index of a triple) ↦ the buffer the triple's name word points into
+deriving Repr, Inhabited
+
+def XHeap.ofHeap (h : Heap) : XHeap := { h := h, bufs := [], nameBuf := [], tripleBuf := [] }
+
+def XHeap.bufText (x : XHeap) (b : Nat) : Option String := (x.bufs.find? (fun p => p.1 = b)).map (·.2)
+
+def XHeap.readName (x : XHeap) : NameArg → Option String
+  | .lit s => some s
+  | .buf b => x.bufText b
+
+def XHeap.bufOfName (x : XHeap) (addr : Nat) : Option Nat := (x.nameBuf.find? (fun p => p.1 = addr)).map (·.2)
+
+/-- the buffer `c_str(type_of(ins))` points into: the `__Name` word of the class object, copied as it is -/
+def XHeap.bufOfCls (x : XHeap) : CRef → Option Nat
+  | .lib _ => none
+  | .rt a => x.bufOfName a
+
+/-- the type object at `addr` is gone or written afresh: its own words no longer point anywhere (name words of OTHER type
+    objects that were copied from its `__Name` cell keep pointing where they point) -/
+def XHeap.forget (x : XHeap) (addr : Nat) : XHeap :=
+  { x with nameBuf := x.nameBuf.filter (fun p => p.1 ≠ addr), tripleBuf := x.tripleBuf.filter (fun p => p.1.1 ≠ addr) }
+
+inductive XOp where
+  | op (o : HOp)                            -- any operation of `HOp` (a construction there has its texts in storage nobody writes)
+  | construct (addr : Nat) (name : NameArg) (es : List (CRef × Inst))
+  | scribble (b : Nat) (text : String)      -- the caller writes `text` into its buffer `b`
+deriving Repr, Inhabited
+
+/-- the name TEXTS a construction sees when it runs -/
+def XHeap.namedRow (x : XHeap) (es : List (CRef × Inst)) : Option (List (String × Inst)) :=
+  es.mapM (fun p => (x.h.resolve p.1).map (fun c => (c.name, p.2)))
+
+/-- the value-level operation an `XOp` amounts to when it runs (`none`: a caller's write, or a construction from an unknown
+    buffer / an instance whose class object is dead) -/
+def XHeap.lower (x : XHeap) : XOp → Option HOp
+  | .op o => some o
+  | .construct addr nm es =>
+    match x.readName nm, x.namedRow es with
+    | some name, some named => some (.construct addr name named)
+    | _, _ => none
+  | .scribble _ _ => none
+
+/-- every name word of the record whose index satisfies `hit` reads `text` from now on -/
+def renameTriples (hit : Nat → Bool) (text : String) (t : TypeRec) : TypeRec :=
+  { t with entries := ((List.range t.entries.length).zip t.entries).map (fun p => if hit p.1 then { p.2 with name := text } else p.2) }
+
+/-- the caller's write seen from the type objects: every `__Name` cell that points into buffer `b` reads `text` (through
+    every memoised pointer to that object too), every triple name word that points into it reads `text`; no word of any
+    type object is written -/
+def XHeap.scribbled (x : XHeap) (b : Nat) (text : String) : Heap :=
+  let addrs := (x.nameBuf.filter (fun p => p.2 = b)).map (·.1)
+  let h1 := addrs.foldl (fun h a =>
+    let h' := h.retarget a text
+    { h' with names := h'.names.map (fun p => if p.1 = a then (a, text) else p) }) x.h
+  { h1 with w := { h1.w with types := h1.w.types.map (fun p =>
+      (p.1, renameTriples (fun i => x.tripleBuf.any (fun q => q.1 = (p.1, i) && q.2 = b)) text p.2)) } }
+
+/-- one operation: the heap after it, what it answers (a caller's write answers nothing) -/
+def XHeap.step (L : Layout) (x : XHeap) : XOp → XHeap × List HObs
+  | .scribble b text =>
+    ({ x with h := x.scribbled b text, bufs := (b, text) :: x.bufs.filter (fun p => p.1 ≠ b) }, [])
+  | op =>
+    match x.lower op with
+    | none => (x, [.ub])
+    | some o =>
+      let r := x.h.step L o
+      let refused : Bool := match o with
+        | .construct _ _ es => es.length > L.maxInstances
+        | _ => false
+      let x1 : XHeap :=
+        if refused then x else
+        match op, o with
+        | .construct addr nm es, _ =>
+          let x0 := x.forget addr
+          { x0 with
+            nameBuf := (match nm with | .buf b => [(addr, b)] | .lit _ => []) ++ x0.nameBuf,
+            tripleBuf := ((List.range es.length).zip es).filterMap (fun p => (x.bufOfCls p.2.1).map (fun b => ((addr, p.1), b))) ++ x0.tripleBuf }
+        | _, .construct addr _ _ => x.forget addr
+        | _, .delete addr => x.forget addr
+        | _, _ => x
+      ({ x1 with h := r.1 }, [r.2])
+
+def XHeap.run (L : Layout) : XHeap → List XOp → XHeap × List HObs
+  | x, [] => (x, [])
+  | x, op :: ops =>
+    let r := x.step L op
+    let rs := XHeap.run L r.1 ops
+    (rs.1, r.2 ++ rs.2)
+
+/-- the same history with every name taken as the TEXT it had when `Type_New` ran (what a type object that owned its
+    strings would see): constructions lowered when they run, the caller's writes dropped -/
+def XHeap.values (L : Layout) : XHeap → List XOp → List HOp
+  | _, [] => []
+  | x, op :: ops => (match x.lower op with | some o => [o] | none => []) ++ XHeap.values L (x.step L op).1 ops
+
+/-- no `__Name` cell and no triple name word points into buffer `b` -/
+def XHeap.unused (x : XHeap) (b : Nat) : Bool := x.nameBuf.all (fun p => p.2 ≠ b) && x.tripleBuf.all (fun p => p.2 ≠ b)
+
+/-- the side condition of one operation -/
+def XOp.quietIn (x : XHeap) : XOp → Bool
+  | .scribble b _ => x.unused b
+  | xo => (x.lower xo).isSome
+
+/-- **the hypothesis under which names are texts**: whenever the caller writes into a buffer, no `__Name` cell and no triple
+    name word of any type object points into it (evaluated on the states the history itself produces); and every
+    construction finds its name buffer and the class objects of its instances alive -/
+def XHeap.quiet (L : Layout) : XHeap → List XOp → Bool
+  | _, [] => true
+  | x, op :: ops => op.quietIn x && XHeap.quiet L (x.step L op).1 ops
+
 end Cello.Dispatch
